@@ -73,7 +73,8 @@ def _mask_key(node):
 
 
 def check_lcc(project: Project, rep, fi):
-    f = fi.node
+    from .common import fn_view
+    f = fn_view(project, fi)
     branch = None
     for n in ast.walk(f):
         if isinstance(n, ast.If):
@@ -211,76 +212,130 @@ def _rowcol(sl):
 
 
 def check_sym(project: Project, rep):
+    from .common import expand_locals, fn_view
     fi = project.function(f"{MOD}.gromov_hausdorff")
     rep.analysed(fi)
-    f = fi.node
+    f = fn_view(project, fi)
+    locs = local_names(f)
     # result matrices: names assigned np.zeros((N, N))
     mats = [n.targets[0].id for n in ast.walk(f) if isinstance(n, ast.Assign) and isinstance(n.targets[0], ast.Name)
-            and isinstance(n.value, ast.Call) and project.resolve(fi.module, n.value.func, local_names(f)) == "numpy.zeros"]
+            and isinstance(n.value, ast.Call) and project.resolve(fi.module, n.value.func, locs) == "numpy.zeros"]
     if len(mats) < 2:
         rep.unmodelled("GH-SYM", fi, f, "the two bound matrices were not found")
         return
-    # nested loops i, j with j from i+1
-    ok_loops = False
+    mats = mats[:2]
+
+    def stores_in(node):
+        return [t for n in ast.walk(node) if isinstance(n, ast.Assign) for t in
+                (n.targets[0].elts if isinstance(n.targets[0], ast.Tuple) else [n.targets[0]])
+                if isinstance(t, ast.Subscript) and isinstance(t.value, ast.Name) and t.value.id in mats]
+
+    # ---- enumeration of pairs: (i, j) with j > i, in one of the recognised forms
+    pair_loops = []  # (loop node, i, j)
     for lp in ast.walk(f):
-        if isinstance(lp, ast.For) and isinstance(lp.target, ast.Name):
+        if not isinstance(lp, ast.For):
+            continue
+        if isinstance(lp.target, ast.Name):
             for inner in lp.body:
-                if isinstance(inner, ast.For) and isinstance(inner.iter, ast.Call) and len(inner.iter.args) == 2:
+                if isinstance(inner, ast.For) and isinstance(inner.target, ast.Name) and isinstance(inner.iter, ast.Call) \
+                        and project.resolve(fi.module, inner.iter.func, locs) == "builtins.range" and len(inner.iter.args) == 2:
                     lo = inner.iter.args[0]
                     i = lp.target.id
-                    if isinstance(lo, ast.BinOp) and isinstance(lo.op, ast.Add) and ast.unparse(lo) in (f"{i} + 1", f"1 + {i}"):
-                        j = inner.target.id
-                        stores = [t for n in ast.walk(inner) if isinstance(n, ast.Assign) for t in
-                                  (n.targets[0].elts if isinstance(n.targets[0], ast.Tuple) else [n.targets[0]])
-                                  if isinstance(t, ast.Subscript) and isinstance(t.value, ast.Name) and t.value.id in mats]
-                        good = [t for t in stores if ast.unparse(t.slice) in (f"{i}, {j}", f"({i}, {j})")]
-                        if stores and len(good) == len(stores) and {t.value.id for t in good} >= set(mats[:2]):
-                            ok_loops = True
-                            rep.discharged("GH-SYM", fi, inner, "bounds are written only at [i, j] with j > i (strict upper "
-                                                                "triangle); the diagonal stays 0")
-                        elif stores:
-                            rep.refuted("GH-SYM", fi, inner, f"bounds are written at {[ast.unparse(t) for t in stores]} — not "
-                                                             f"only at the strict upper triangle [i, j], j > i")
-                            ok_loops = True
-                    elif isinstance(inner.iter, ast.Call):
-                        pass
-    if not ok_loops:
-        rep.refuted("GH-SYM", fi, f, "pairs are not enumerated as j in range(i+1, N): the diagonal or the lower triangle is "
-                                     "computed separately, or pairs are missed", construct=f"{fi.qualname}: pair loops")
-    # symmetrisation
-    tril = [n for n in ast.walk(f) if isinstance(n, ast.Call)
-            and project.resolve(fi.module, n.func, local_names(f)) == "numpy.tril_indices"]
-    if not tril:
-        rep.refuted("GH-SYM", fi, f, "the lower triangle is never filled from the upper one: the collection result is not "
-                                     "symmetric", construct=f"{fi.qualname}: symmetrisation")
+                    if ast.unparse(lo).replace(" ", "") in (f"{i}+1", f"1+{i}") and ast.unparse(inner.iter.args[1]) == \
+                            (ast.unparse(lp.iter.args[-1]) if isinstance(lp.iter, ast.Call) and lp.iter.args else None):
+                        pair_loops.append((inner, i, inner.target.id, "j in range(i+1, N)"))
+                    elif stores_in(inner):
+                        pair_loops.append((inner, i, inner.target.id, None))
+        elif isinstance(lp.target, ast.Tuple) and len(lp.target.elts) == 2 and all(isinstance(e, ast.Name) for e in lp.target.elts) \
+                and isinstance(lp.iter, ast.Call) and project.resolve(fi.module, lp.iter.func, locs) == "itertools.combinations" \
+                and len(lp.iter.args) == 2 and const_value(lp.iter.args[1]) == 2 and isinstance(lp.iter.args[0], ast.Call) \
+                and project.resolve(fi.module, lp.iter.args[0].func, locs) == "builtins.range" and len(lp.iter.args[0].args) == 1:
+            pair_loops.append((lp, lp.target.elts[0].id, lp.target.elts[1].id, "(i, j) in combinations(range(N), 2)"))
+    recognised = [x for x in pair_loops if x[3] is not None and stores_in(x[0])]
+    odd = [x for x in pair_loops if x[3] is None]
+    if recognised:
+        inner, i, j, form = recognised[0]
+        stores = stores_in(inner)
+        good = [t for t in stores if ast.unparse(t.slice) in (f"{i}, {j}", f"({i}, {j})")]
+        if len(good) == len(stores) and {t.value.id for t in good} >= set(mats):
+            rep.discharged("GH-SYM", fi, inner, f"bounds are written only at [i, j] for {form} (strict upper triangle); the "
+                                                f"diagonal stays 0")
+        else:
+            rep.refuted("GH-SYM", fi, inner, f"bounds are written at {[ast.unparse(t) for t in stores]} — not "
+                                             f"only at the strict upper triangle [i, j], j > i")
+    elif odd:
+        inner, i, j, _ = odd[0]
+        rep.refuted("GH-SYM", fi, inner, f"pairs are enumerated as `{j}` in `{ast.unparse(inner.iter)}` instead of range({i}+1, N): "
+                                         f"the diagonal or the lower triangle is computed separately, or pairs are missed",
+                    construct=f"{fi.qualname}: pair loops")
     else:
-        k = tril[0].args[1] if len(tril[0].args) > 1 else _kw(tril[0], "k")
+        rep.unmodelled("GH-SYM", fi, f, "how the pairs of graphs are enumerated was not recognised")
+    # ---- symmetrisation
+    tril = [n for n in ast.walk(f) if isinstance(n, ast.Call) and project.resolve(fi.module, n.func, locs) == "numpy.tril_indices"]
+    for t in tril:
+        k = t.args[1] if len(t.args) > 1 else _kw(t, "k")
         kv = const_value(k) if k is not None else 0
         if kv in (-1, 0):
-            rep.discharged("GH-SYM", fi, tril[0], f"lower-triangle indices with k = {kv} cover every sub-diagonal entry (the "
-                                                  f"diagonal is 0 in both the matrix and its transpose)")
+            rep.discharged("GH-SYM", fi, t, f"lower-triangle indices with k = {kv} cover every sub-diagonal entry (the "
+                                            f"diagonal is 0 in both the matrix and its transpose)")
+        elif kv is None:
+            rep.unmodelled("GH-SYM", fi, t, f"offset of `{ast.unparse(t)}` is not a constant")
         else:
-            rep.refuted("GH-SYM", fi, tril[0], f"np.tril_indices(N, {kv}): " + ("entries above the diagonal are overwritten "
-                                                                              "with zeros from the transpose" if kv and kv > 0
-                                                                              else "the first sub-diagonal is never filled"))
-        copied = set()
-        for n in ast.walk(f):
-            if isinstance(n, ast.Assign) and isinstance(n.targets[0], ast.Subscript) and isinstance(n.targets[0].value, ast.Name) \
-                    and n.targets[0].value.id in mats:
-                v = n.value
-                if isinstance(v, ast.Subscript) and isinstance(v.value, ast.Attribute) and v.value.attr == "T" \
-                        and isinstance(v.value.value, ast.Name):
-                    if v.value.value.id == n.targets[0].value.id and ast.unparse(v.slice) == ast.unparse(n.targets[0].slice):
-                        copied.add(v.value.value.id)
-                    else:
-                        rep.refuted("GH-SYM", fi, n, f"`{ast.unparse(n)}` fills one matrix's lower triangle from another "
-                                                     f"matrix or other indices")
-        for mname in mats[:2]:
-            if mname in copied:
-                rep.discharged("GH-SYM", fi, f, f"lower triangle of `{mname}` is copied from its own transpose")
+            rep.refuted("GH-SYM", fi, t, f"np.tril_indices(N, {kv}): " + ("entries above the diagonal are overwritten "
+                                                                        "with zeros from the transpose" if kv and kv > 0
+                                                                        else "the first sub-diagonal is never filled"))
+    copied = set()
+    other_writes = {m: [] for m in mats}
+    loop_nodes = {id(x) for lp_ in pair_loops for x in ast.walk(lp_[0])}
+    for n in ast.walk(f):
+        if isinstance(n, ast.Assign) and len(n.targets) == 1 and isinstance(n.targets[0], ast.Subscript) \
+                and isinstance(n.targets[0].value, ast.Name) and n.targets[0].value.id in mats and id(n) not in loop_nodes:
+            m = n.targets[0].value.id
+            v = n.value
+            idx_t = ast.unparse(expand_locals(f, n.targets[0].slice))
+            if isinstance(v, ast.Subscript) and isinstance(v.value, ast.Attribute) and v.value.attr == "T" \
+                    and isinstance(v.value.value, ast.Name) and "tril_indices" in idx_t:
+                if v.value.value.id == m and ast.unparse(expand_locals(f, v.slice)) == idx_t:
+                    copied.add(m)
+                else:
+                    rep.refuted("GH-SYM", fi, n, f"`{ast.unparse(n)}` fills one matrix's lower triangle from another "
+                                                 f"matrix or other indices")
+                    copied.add(m)
             else:
-                rep.refuted("GH-SYM", fi, f, f"`{mname}` is never symmetrised: its lower triangle stays 0",
-                            construct=f"{fi.qualname}: symmetrisation of {mname}")
+                other_writes[m].append(n)
+        elif isinstance(n, (ast.Assign, ast.AugAssign)) and id(n) not in loop_nodes:
+            tg = n.targets[0] if isinstance(n, ast.Assign) else n.target
+            if isinstance(tg, ast.Name) and tg.id in mats and not (
+                    isinstance(n, ast.Assign) and isinstance(n.value, ast.Call)
+                    and project.resolve(fi.module, n.value.func, locs) == "numpy.zeros"):
+                # lbs = lbs + lbs.T / lbs += lbs.T  (diagonal and lower triangle are 0 before)
+                v = n.value
+                txt = ast.unparse(v).replace(" ", "")
+                m = tg.id
+                if (isinstance(n, ast.AugAssign) and isinstance(n.op, ast.Add) and txt == f"{m}.T") or \
+                        txt in (f"{m}+{m}.T", f"{m}.T+{m}", f"np.maximum({m},{m}.T)", f"np.maximum({m}.T,{m})"):
+                    copied.add(m)
+                else:
+                    other_writes[m].append(n)
+        elif isinstance(n, ast.Call) and id(n) not in loop_nodes:
+            t = project.resolve(fi.module, n.func, locs)
+            if t in ("builtins.len", "numpy.tril_indices", "numpy.zeros"):
+                continue
+            for a_ in list(n.args) + [k.value for k in n.keywords]:
+                if isinstance(a_, ast.Name) and a_.id in mats:
+                    other_writes[a_.id].append(n)
+            if isinstance(n.func, ast.Attribute) and isinstance(n.func.value, ast.Name) and n.func.value.id in mats:
+                other_writes[n.func.value.id].append(n)
+    for mname in mats:
+        if mname in copied:
+            rep.discharged("GH-SYM", fi, f, f"lower triangle of `{mname}` is filled from its own transpose")
+        elif other_writes[mname]:
+            rep.unmodelled("GH-SYM", fi, other_writes[mname][0], f"`{ast.unparse(other_writes[mname][0])[:80]}` may symmetrise "
+                                                                  f"`{mname}` in a form that was not recognised")
+        else:
+            rep.refuted("GH-SYM", fi, f, f"`{mname}` is never symmetrised: nothing writes to it after the strict upper triangle "
+                                         f"is filled, so its lower triangle stays 0 and the collection result is not symmetric",
+                        construct=f"{fi.qualname}: symmetrisation of {mname}")
     # pair call returns [0, 1]
     rets = [n for n in ast.walk(f) if isinstance(n, ast.Return) and isinstance(n.value, ast.Tuple)]
     pair = [r for r in rets if all(isinstance(e, ast.Subscript) for e in r.value.elts)]
@@ -293,12 +348,18 @@ def check_sym(project: Project, rep):
 def check_int(project: Project, rep):
     fi = project.function(f"{MOD}.determine_optimal_int_type")
     rep.analysed(fi)
-    f = fi.node
+    from .common import fn_view
+    f = fn_view(project, fi)
     ladder = None
     cmpop = None
+    locs = local_names(f)
     for n in ast.walk(f):
-        if isinstance(n, ast.List) and n.elts and all(isinstance(e, ast.Attribute) for e in n.elts):
+        if isinstance(n, (ast.List, ast.Tuple)) and n.elts and all(isinstance(e, ast.Attribute) for e in n.elts):
             ladder = [e.attr for e in n.elts]
+        if isinstance(n, ast.Name) and isinstance(n.ctx, ast.Load) and n.id not in locs and n.id in fi.module.globals:
+            g = fi.module.globals[n.id]
+            if isinstance(g, (ast.List, ast.Tuple)) and g.elts and all(isinstance(e, ast.Attribute) for e in g.elts):
+                ladder = [e.attr for e in g.elts]
         if isinstance(n, ast.Compare) and len(n.ops) == 1 and "iinfo" in ast.unparse(n):
             cmpop = n
     if ladder is None or cmpop is None:
